@@ -285,6 +285,47 @@ def p_break_in_brackets(rng, src, state):
     return '\n'.join(lines)
 
 
+def p_break_at_edge(rng, src, state):
+    """Inside brackets: a line break between the first and the second (or the last and the one before last) element of
+    a sequence - operands of a BoolOp / Compare, elements, arguments, with-items ...: removing that edge element later
+    moves the start (end) of the container to another line."""
+    tree = try_parse(src)
+    tk = try_toks(src)
+    if tree is None or not tk:
+        return None
+    starts = set()
+    for n in ast.walk(tree):
+        seqs = [v for f, v in ast.iter_fields(n) if isinstance(v, list) and len(v) >= 2 and all(hasattr(x, 'lineno') for x in v)]
+        if isinstance(n, ast.Compare):
+            seqs.append([n.left] + n.comparators)
+        for v in seqs:
+            for x in (v[1], v[-1]):
+                starts.add((x.lineno, x.col_offset))
+    lines = src.split('\n')
+    bstart = {}
+    for lno, boff in starts:
+        try:
+            bstart[(lno, len(lines[lno - 1].encode()[:boff].decode()))] = True
+        except Exception:
+            pass
+    cands = []
+    dt = list(_depth_tokens(tk))
+    for i, (t, depth, fd) in enumerate(dt):
+        if t.start in bstart and depth > 0 and not fd:
+            j = i
+            while j > 0 and dt[j - 1][0].string == '(' and dt[j - 1][0].end[0] == dt[j][0].start[0]:
+                j -= 1
+            if j > 0 and dt[j - 1][0].end[0] == dt[j][0].start[0] and dt[j][1] > 0 and dt[j - 1][0].type not in (tokenize.NL, tokenize.COMMENT):
+                cands.append((dt[j - 1][0], dt[j][0]))
+    if not cands:
+        return None
+    a, b = rng.choice(cands)
+    ln = a.end[0] - 1
+    cmt = ('  ' + _new_comment(rng, state)) if rng.random() < 0.2 else ''
+    lines[ln] = lines[ln][:a.end[1]] + cmt + '\n' + ' ' * rng.randint(0, 16) + lines[ln][b.start[1]:]
+    return '\n'.join(lines)
+
+
 def p_backslash(rng, src, state):
     tk = try_toks(src)
     if not tk:
@@ -489,6 +530,7 @@ PERTURBATIONS = {
     'blank_line': p_blank_line,
     'parens': p_parens,
     'break_in_brackets': p_break_in_brackets,
+    'break_at_edge': p_break_at_edge,
     'backslash': p_backslash,
     'semicolon': p_semicolon,
     'oneline_block': p_oneline_block,
